@@ -92,6 +92,10 @@ func C19(env *Env) {
 	env.c19TypedErrors()
 	env.c19Flags()
 	env.c19ParseConfig()
+	// malformed policy / root-of-trust values are conversion errors (exit 1): the
+	// conversions are decided by the rules of C14 and C02/R4
+	env.via("C14", c14Own)
+	env.via("C02", func(s *Env) { s.c02RootOfTrust() })
 	// no config / flag combination crashes the tool (library entry points are decided by C10)
 	env.safetyKinds("C19", map[string]bool{"B1": true, "B3": true, "B4": true}, checkPkg, "main", "verify.TdxQuote", "validate.TdxQuote", "verify.RootOfTrustToOptions", "validate.PolicyToOptions", "abi.QuoteToProto")
 	r.Floor("C19/EXIT0", 8)
@@ -99,6 +103,8 @@ func C19(env *Env) {
 	r.Floor("C19/TYPED-ERR", 6)
 	r.Floor("C19/FLAG", 14)
 	r.Floor("C19/NONNIL", 4)
+	env.errorsNotLost("C19/ERRFLOW", inPackages(env.calleesBelow(mainFn), checkPkg, "tools/lib/cmdline"))
+	r.Floor("C19/ERRFLOW", 10)
 	r.Floor("C19/B1", 3)
 }
 
@@ -375,6 +381,20 @@ func (env *Env) c19TypedErrors() {
 			for _, in := range b.Instrs {
 				if mi, ok := in.(*ssa.MakeInterface); ok && isErrType(mi.Type()) && typed[load.TypeString(mi.X.Type())] {
 					carries[fn] = true
+				}
+				// every boxing of one of the typed error structs uses the form the
+				// tool's errors.As targets ask for (value vs pointer)
+				if mi, ok := in.(*ssa.MakeInterface); ok && isErrType(mi.Type()) {
+					ts := load.TypeString(mi.X.Type())
+					base := strings.TrimPrefix(ts, "*")
+					if base == "verify.CRLUnavailableErr" || base == "verify/trust.AttestationRecreationErr" {
+						key := "form@" + load.FuncName(fn) + ":" + ts
+						if typed[ts] {
+							r.OK("C19/TYPED-ERR", key, env.P.Pos(mi.Pos()), "typed error boxed in the form errors.As is asked for")
+						} else {
+							r.Fail("C19/TYPED-ERR", key, env.P.Pos(mi.Pos()), fmt.Sprintf("%s returns the typed download error as %s, but the tool's errors.As target matches only the other form (value vs pointer): this failure is reported with exit code 2 instead of 3", load.FuncName(fn), ts))
+						}
+					}
 				}
 			}
 		}
